@@ -199,7 +199,7 @@ fn check_first_deposit(
 }
 
 pub fn probe_round_trip(w: &World, long_amount: u128, short_amount: u128, obs: &mut Obs) {
-    let mut f = w.clone();
+    let mut f = w.fork();
     let prices = f.prices;
     let (r, _, _, _) = f.run_tx(0, |w, sc| w.settle(&mut sc.pre_reports));
     if r.is_err() {
@@ -280,7 +280,7 @@ pub fn after_step(w: &World, out: &StepOutcome, obs: &mut Obs) {
         // (c) does not need the settlement
         if let Report::Deposit(rep) = &out.report {
             if out.before.market.total_supply == 0 {
-                let mut b = w.clone();
+                let mut b = w.fork();
                 b.restore(&out.before);
                 let v = valued(&mut b, Valuation::Deposit);
                 check_first_deposit(w, &out.before.market, &w.market.st, v.value, rep, &out.prices, "step", obs);
@@ -289,7 +289,7 @@ pub fn after_step(w: &World, out: &StepOutcome, obs: &mut Obs) {
         return;
     }
     // state right before the action: the snapshot plus the settlement the transaction did
-    let mut b = w.clone();
+    let mut b = w.fork();
     b.restore(&out.before);
     b.prices = out.prices;
     let (r, _, _, _) = b.run_tx(0, |w, sc| w.settle(&mut sc.pre_reports));
@@ -298,7 +298,7 @@ pub fn after_step(w: &World, out: &StepOutcome, obs: &mut Obs) {
     }
     let st0 = b.market.st.clone();
     let v0 = both(&mut b);
-    let mut a = w.clone();
+    let mut a = w.fork();
     a.prices = out.prices;
     let v1 = both(&mut a);
     match &out.report {
